@@ -287,7 +287,7 @@ class TransformationGraph(Graph):
                 self.add((current, TF.via, op_node))
 
                 if self.with_membership:
-                    self.add((root, TF.containsOperator, op_node))
+                    self.add((root, TF.containsOperation, op_node))
 
             if self.with_types and canonical and essential:
 
